@@ -199,6 +199,35 @@ func factWatchLoop() {
 	filterContinues := false
 	selOK := false
 	wakeups := []string{}
+	// an arm "falls through to the read" when nothing in it leaves the select's flow: no continue / break / goto /
+	// return, except the `if !ok { return }` exit for a closed channel
+	leaves := func(n ast.Node) bool {
+		found := false
+		ast.Inspect(n, func(m ast.Node) bool {
+			switch m.(type) {
+			case *ast.BranchStmt, *ast.ReturnStmt:
+				found = true
+			case *ast.FuncLit:
+				return false
+			}
+			return !found
+		})
+		return found
+	}
+	fallsThrough := func(stmts []ast.Stmt) bool {
+		for _, st := range stmts {
+			if is, ok := st.(*ast.IfStmt); ok && src(is.Cond) == "!ok" && is.Else == nil && is.Init == nil && len(is.Body.List) == 1 {
+				if r, ok := is.Body.List[0].(*ast.ReturnStmt); ok && len(r.Results) == 0 {
+					continue
+				}
+			}
+			if leaves(st) {
+				return false
+			}
+		}
+		return true
+	}
+	errorsFall, errorsSeen, plainFall := false, false, true
 	if len(body) > 0 {
 		if sel, ok := body[0].(*ast.SelectStmt); ok {
 			selOK = true
@@ -209,6 +238,13 @@ func factWatchLoop() {
 					comm = src(cc.Comm)
 				}
 				wakeups = append(wakeups, comm)
+				switch {
+				case strings.HasSuffix(comm, "<-ws.watcher.Errors"):
+					errorsSeen = true
+					errorsFall = fallsThrough(cc.Body)
+				case comm == "<-tickerChan" || comm == "<-ws.Reload":
+					plainFall = plainFall && fallsThrough(cc.Body)
+				}
 				switch {
 				case comm == "<-ctx.Done()":
 					if len(cc.Body) == 1 {
@@ -255,6 +291,11 @@ func factWatchLoop() {
 	emit("/-- F15s: the wake-up sources of the loop's select, in source order -/\ndef watchWakeups : List String := %s\n\n", strList(wakeups))
 	emit("/-- F15s: the select wakes on the poll ticker, the Reload channel, fsnotify events, fsnotify errors and the context -/\ndef watchWakesOnAll : Bool := %v\n\n",
 		strings.Join(wakeups, ";") == "<-tickerChan;<-ws.Reload;ev, ok := <-ws.watcher.Events;_, ok := <-ws.watcher.Errors;<-ctx.Done()")
+	if !errorsSeen {
+		miss("F15e2", "file.go watchLoop: `case _, ok := <-ws.watcher.Errors:` in the select")
+	}
+	emit("/-- F15e2: the arm for fsnotify errors (the only documented one is the event-queue overflow) falls through to the read: nothing in it leaves the select except `if !ok { return }` -/\ndef watchErrorsFallThrough : Bool := %v\n\n", errorsSeen && errorsFall)
+	emit("/-- F15e3: the poll-ticker and Reload arms fall through to the read -/\ndef watchTickReloadFallThrough : Bool := %v\n\n", plainFall)
 	emit("/-- F15i: the loop returns (running its deferred Close / WG.Done) when the context is done -/\ndef watchLoopReturnsOnCtxDone : Bool := %v\n\n", ctxReturns)
 	emit("/-- F15g: event names that pass the filter (source expressions of the empty case of `switch ev.Name`); every other event is skipped -/\ndef watchEventFilter : List String := %s\n\n", strList(filter))
 	// constants and path expressions used by the filter
